@@ -45,6 +45,10 @@ EXPLANATION += ' (R9) counted record loops (`for i in range(n)` consuming a line
 TECHNIQUE += '; who-may-touch rule for the raw file handle; decision-table evaluation of the format selection; message composition evaluated'
 EXPLANATION += " Added: (R10) the text of a LoadError is `message (file:line)` (composition evaluated); R1 also forbids return / break / continue in `finally` and contextlib.suppress in the funnels; R4 covers `for line in lit` loops with push-back; R5 is a 19-row decision table of validate_shape plus the frozen field -> arguments schema (spec/validators.json); (R11) only LineIterator's methods use its `fh` (json.load of the whole document is the one hand-over, by callee); (R12) `_select_format_module` as a decision table on a model registry: a module without the requested feature is never returned, the answer is a module that has it or FileFormatError."
 # --- end metadata batch 7
+# --- metadata added for batch 8
+TECHNIQUE += '; premise check of the frozen termination exception on the CFG'
+EXPLANATION += ' R4: the one frozen termination exception (the CP2K basis reader) is only granted while its reason holds on the CFG -- every path from the push-back to the loop head passes the statement that raises for an empty block. R7 counts rows of pre-allocated arrays filled in a counted loop as members of the record group; a member stored on both branches of an `if` is unconditional.'
+# --- end metadata batch 8
 
 
 def run(ctx):
